@@ -43,3 +43,19 @@ pub fn outlined_attach_fragments(tracks: &mut HashMap<u32, Mp4Track>, default_sa
 pub fn outlined_decode_utf16_3(lang: &[u16; 3]) -> (r: String)
     ensures lang[0] < 0x80 && lang[1] < 0x80 && lang[2] < 0x80 ==> r@ == seq![ascii_char(lang[0]), ascii_char(lang[1]), ascii_char(lang[2])]
 { unimplemented!() }
+
+/// hdlr.rs / dinf.rs `if let Some(end) = buf.iter().position(|&b| b == b'\0') { buf.truncate(end); }
+/// let s = String::from_utf8(buf).unwrap_or_default();`  -- ASSUMED: the string's UTF-8 form is a prefix of the buffer
+/// (the bytes before the first NUL) or empty
+#[verifier::external_body]
+pub fn outlined_cstring_lossy(buf: Vec<u8>) -> (r: String)
+    ensures utf8(r@).len() <= buf@.len(),
+            utf8(r@).len() > 0 ==> utf8(r@) == buf@.subrange(0, utf8(r@).len() as int),
+{ unimplemented!() }
+
+/// ilst.rs `String::from_utf8_lossy(&item.data.data).parse::<u32>().ok()` -- ASSUMED (lossy decoding never produces an ASCII
+/// digit or '+' from an invalid sequence, so the result is the decimal value of the bytes); Kani checks it for short inputs
+#[verifier::external_body]
+pub fn outlined_parse_u32_lossy(data: &Vec<u8>) -> (r: Option<u32>)
+    ensures r == decimal_u32(data@)
+{ unimplemented!() }
